@@ -22,7 +22,7 @@ RULE = ("Every entry of every version table of CONVERSION_TABLE x generated lega
         "use_underscore).  Non-trivial: the set contains at least one table-listed old name.")
 ASSUMPTIONS = [
     "the expected mapping is read from CONVERSION_TABLE composed over versions; vector parameters map base+k -> base+k",
-    "for magnetic magnitudes and for fit limits of SLDs both v and v*1e6 are accepted (the statement only says SLDs)",
+    "magnetic magnitudes (unit 1e-6/Ang^2 in the current table) count as SLDs for the 1e6 rescaling; for fit limits of SLDs both v and v*1e6 are accepted (the statement is silent)",
     "hand-converted models are checked for completion, key validity and the untouched parameters only",
 ]
 REQUIRED_MONITORS = ["completes", "name_is_current_model", "keys_exist", "value_carried", "scale_background_defaulted"]
@@ -111,6 +111,9 @@ def run_case(case, rec):
     info, names = current_names(final_model)
     nameset = set(names)
     sld_names = {p.name for p in info.parameters.call_parameters if p.type == "sld"}
+    # parameters carrying the rescaled SLD unit: nuclear SLDs and their magnetic magnitudes
+    sld_units = {p.name for p in info.parameters.call_parameters
+                 if p.type == "sld" or (p.name.endswith("_M0") and p.units == "1e-6/Ang^2")}
     control = [p.id for p in info.parameters.kernel_parameters if p.is_control]
     control_old = {mapping.get(c) for c in control if mapping.get(c)}
     table_new = {magnetic_new(n) for n in old2new.values()}
@@ -226,9 +229,11 @@ def run_case(case, rec):
                 got = newpars[nk]
                 accept = [v]
                 if isinstance(v, float) and ver == (3, 1, 2) and not info.structure_factor:
-                    if nk == n and n in sld_names:
+                    if nk == n and n in sld_units:
+                        # the value itself: current unit is 1e-6/Ang^2 (nuclear SLDs and magnetic magnitudes)
                         accept = [v*1e6]
-                    elif n in sld_names or n.endswith("_M0"):
+                    elif n in sld_units:
+                        # fit limits of such parameters: the statement does not say
                         accept = [v, v*1e6]
                 okv = any((got == a) or (isinstance(a, float) and isinstance(got, float)
                                          and abs(got - a) <= 1e-12*abs(a)) for a in accept)
